@@ -125,6 +125,19 @@ def install_buggify(mods, bug, records):
         g.compute_original_sfs_with_simplifications = compute
 
 
+def _norm_push0(obj):
+    """PUSH "0" and PUSH0 are two documented spellings of the same item."""
+    if isinstance(obj, dict):
+        if obj.get("name") == "PUSH" and obj.get("value") == "0":
+            d = {k: v for k, v in obj.items() if k != "value"}
+            d["name"] = "PUSH0"
+            return d
+        return {k: _norm_push0(v) for k, v in obj.items()}
+    if isinstance(obj, list):
+        return [_norm_push0(x) for x in obj]
+    return obj
+
+
 def run_op(op):
     """Execute one op in this (child) process; ships the result through procs.ship on a crash."""
     env = op.get("env", {})
@@ -201,6 +214,21 @@ def run_op(op):
             et, ev, tb = sys.exc_info()
             res["exc"] = {"type": et.__name__, "msg": str(ev)[:300], "frame": innermost_repo_frame(tb),
                           "trace": traceback.format_exc()[-3000:]}
+        if op.get("reparse") and res["exc"] is None:
+            # the tool's own parser re-reads what the tool has just emitted (C09)
+            try:
+                import json as _json
+                pa = mods["sfs_generator.parser_asm"]
+                outp = op["reparse"]
+                text = fs.files.get(outp)
+                if text is not None:
+                    if "-single-json" in op["argv"] or "-c" in op["argv"]:
+                        again = pa.parse_json_asm(outp).to_asm_json()
+                    else:
+                        again = pa.parse_asm(outp).to_json()
+                    records["reparse_equal"] = (_norm_push0(again) == _norm_push0(_json.loads(text.decode())))
+            except BaseException as e:
+                records["reparse_exc"] = "%s: %s" % (type(e).__name__, str(e)[:200])
     finally:
         sys.stdout, sys.stderr = old_out, old_err
     res["files"] = dict(fs.files)
